@@ -287,6 +287,39 @@ def check_oracle(r):
     return bad
 
 
+def equal_keys_agree(r):
+    """C07, judged on the implementation's own answers: where `x isEqualTo y` is true, looking x up in a HashMap and
+    looking y up give the same answer (`get`, `in`).  Applies to the probe block of Gen.nested_key_history:
+    five consecutive statements  x isEqualTo y | m get x | m get y | x in m | y in m."""
+    bad = []
+    st = sqf_of(r)
+    impl = r["impl"]
+    def val(i):
+        if i >= len(impl) or impl[i].split(" ")[0] in CRASHY or impl[i].split("\t")[0] in CRASHY:
+            return None
+        return text(impl[i].split(";")[1])
+    for i in range(len(st) - 4):
+        m = re.match(r"r_ = \[(v\d+) isEqualTo (.*)\]$", st[i])
+        if not m:
+            continue
+        x, y = m.group(1), m.group(2)
+        g = re.match(r"r_ = \[(v\d+) get " + re.escape(x) + r"\]$", st[i + 1])
+        if not g or st[i + 2] != "r_ = [%s get %s]" % (g.group(1), y):
+            continue
+        if st[i + 3] != "r_ = [%s in %s]" % (x, g.group(1)) or st[i + 4] != "r_ = [%s in %s]" % (y, g.group(1)):
+            continue
+        vals = [val(i + k) for k in range(5)]
+        if None in vals or vals[0] != "[true]":
+            continue
+        if vals[1] != vals[2]:
+            bad.append("%s isEqualTo %s is true, but %s get %s is %s and %s get %s is %s (statements %d-%d)"
+                       % (x, y, g.group(1), x, vals[1], g.group(1), y, vals[2], i, i + 2))
+        if vals[3] != vals[4]:
+            bad.append("%s isEqualTo %s is true, but %s in %s is %s and %s in %s is %s (statements %d-%d)"
+                       % (x, y, x, g.group(1), vals[3], y, g.group(1), vals[4], i, i + 4))
+    return bad
+
+
 def sqf_of(r):
     return [text(m[1]) for m in r["model"]]
 
@@ -481,6 +514,9 @@ class Gen:
             if r.random() < 0.3: ops.append(noise())
         ops.append(mutate)
         if r.random() < 0.3: ops.append(noise())
+        # a block the property itself judges (equal_keys_agree): the key object against a fresh literal of its content
+        ops += [op("iseq", V_(2), L_(future)), op("get", V_(0), V_(2)), op("get", V_(0), L_(future)),
+                op("in", V_(2), V_(0)), op("in", L_(future), V_(0))]
         probes = [op("get", V_(0), V_(2)), op("in", V_(2), V_(0)), op("mset", V_(0), V_(2), L_(s(b"upd"))), op("get", V_(0), L_(future)),
                   op("count", V_(0)), op("mdel", V_(0), V_(2)), op("count", V_(0)), op("iseq", V_(2), L_(future))]
         r.shuffle(probes)
